@@ -16,7 +16,7 @@ def run(payload):
     fails, cases = [], 0
 
     def fail(kind, **kw):
-        if len(fails) < 8:
+        if sum(1 for f_ in fails if f_["id"] == kind) < 3:  # a few witnesses per kind; one kind never crowds out another
             fails.append({"id": kind, **kw})
 
     def close(a, b):
@@ -144,6 +144,22 @@ def run(payload):
                 fail("numpy_setter_args", ghost=float(g4[0]), want=float(want_ghost))
         except Exception as e:
             fail("args_route_error", error=f"{type(e).__name__}: {str(e)[:300]}")
+    # ---- the `out` field is the input field itself: same numbers as without `out`
+    for g in (UnitGrid([8], periodic=True), CartesianGrid([(0, 1), (0, 2)], [4, 5])):
+        bc = "auto_periodic_neumann"
+        for backend in ("numba", "scipy"):
+            f = ScalarField(g, rng.uniform(-1, 1, g.shape))
+            cases += 1
+            try:
+                want = f.laplace(bc, backend=backend).data.copy()
+                f2 = f.copy()
+                got = f2.laplace(bc, out=f2, backend=backend)
+                if got is not f2 or not close(f2.data, want):
+                    fail("out_is_the_input_field", grid=repr(g), backend=backend, max_dev=float(np.max(np.abs(f2.data - want))))
+            except RuntimeError:
+                pass  # the scipy route refuses grids with different cell sizes per axis
+            except Exception as e:
+                fail("out_alias_error", grid=repr(g), backend=backend, error=f"{type(e).__name__}: {str(e)[:200]}")
     # ---- Robin conditions whose coefficient is linked to an external array: compiled operator vs interpreted setter + operator
     for dtype in (float, int):
         g = UnitGrid([4, 3])
